@@ -1,6 +1,47 @@
 import SJ.Proofs.GoObjectLemmas
 set_option linter.unusedVariables false
 set_option linter.unusedSimpArgs false
+/-
+GoObject — `ParsedJson.stringByteAt`, `Iter.StringBytes`, `Iter.Bool` (parsed_json.go) and `Object.NextElementBytes`
+(parsed_object.go), as printed by the translator (`Generated/GoSrc.lean`) and run by `GoSem.exec`, against the hand model
+(`Model/Tape.lean`, `Model/Iter.lean`, `Model/Object.lean`).  The proofs run the syntax trees: any edit of these Go
+functions changes `Generated/GoSrc.lean` and breaks them.
+
+Stores: an `Iter` named `x` is `envOf "x" i`; an `Object` named `o` with view `v` is `("o.off", v.off), ("o.lim", v.lim)`;
+the document's buffers are `("Strings.B", pj.strings)`, `("Message", pj.msg)`; the interpreter's tape is `pj.tape`.
+
+  1. `stringByteAt_sim` (+ `SimBytes.iff`, `stringByteAt_safe`): for every `offset`, `length` (sums that wrap included) and
+     every fuel, `stringByteAt` returns `(b, nil)` iff the model says `.ok b`, `(nil, err)` iff the model says `.error`;
+     neither side panics.
+  2. `stringBytes_sim` (fuel ≥ 1, view inside the tape), `bool_sim` (any fuel, any tape): receiver unchanged.
+  3. `nextElementBytes_sim`: for a view `v` inside the tape, an ARBITRARY `*dst = d0`, interpreter fuel and model fuel
+     ≥ `v.lim - v.off + 1`: outcome and model result are related by `SimNE` (GoObjectLemmas):
+       `.ok (v', none)`               ⇔ `(nil, TypeNone, nil)`, `o = v'`, `*dst` untouched (`= d0`)
+       `.ok (v', some (name, d, ty))` ⇔ `(name, ty, nil)`, `o = v'`, `*dst = d`
+       `.error _`                     ⇔ `(nil, TypeNone, err)`
+       `.panic`                       ⇔ panic          (`nextElementBytes_safe`: does not happen, nor `.diverge`)
+     and in every case tape, string buffer and message are untouched.  The recursion on `TagNop` goes through
+     `callFun` (`callFun_neb`, `backNEB_ret`: frame of the callee = `neEnv`, fields of `o` and `*dst` copied back);
+     `neb_exec` is the induction on `v.lim - v.off` (each nested call starts ≥ 1 word further).
+  4. `go_object_source_tie` bundles them.
+
+Hypotheses beyond `lim ≤ pj.tape.size`, with the reason:
+  * `BufOK pj` : `pj.msg.size < 2^63 ∧ pj.strings.size < 2^63`.  The model compares natural numbers
+    (`e.toNat > pj.msg.size`) and slices with `Nat` bounds; the code compares `offset+length > uint64(len(pj.Message))`
+    and converts the slice bounds with `int(..)`.  They agree exactly when the lengths are representable as a Go
+    `int` — which every Go slice length is.  Not needed for `Bool`; needed wherever `stringByteAt` runs.
+  Nothing else: the model's reads `rd pj.tape k` (bounds-checked against the ARRAY) are all guarded by `k < lim` tests
+  in model and code alike, so Go's check against the VIEW length never fails where the model's succeeds; `*dst` is
+  overwritten field by field and `calcNext` assigns `addNext` itself (`calcNext_congr`), so the caller's old `*dst`
+  does not matter; `elemSize` is an `Int` on both sides.
+
+What the statement does not say (no difference found, but not covered):
+  * after an `.error` the model carries no state; Go has by then possibly advanced `o.off` (by 2 or 3) and overwritten
+    `*dst`.  `SimNE` only says that `o` and `*dst` still exist.
+  * `nil` and `[]byte{}` are the same value `#[]` in `GoSem`, so `(nil, TypeNone, nil)` is also what an element with an
+    empty name and a tag without `Type` returns (`SimNE.iff`): the model tells the two apart (`none` / `some`), the Go
+    callers (`Map`, `Parse`) test `t == TypeNone` and stop in both cases — as the model's `objMap`/`parse` do.
+-/
 namespace SJ.GoObject
 open SJ SJ.GoSem SJ.Generated SJ.GoIter
 
@@ -312,6 +353,56 @@ theorem nextElementBytes_no_diverge (pj : PJ) (hb : BufOK pj) (v : View) (hl : v
   rw [h] at this
   exact this
 
+/-- inside a view that lies in the tape the model neither panics nor (with `lim - off + 1` fuel) diverges: every
+    index it reads is guarded by a `< lim` test, as in the Go code -/
+theorem nextElementBytes_safe (pj : PJ) : ∀ (n : Nat) (v : View) (m : Nat), v.lim - v.off ≤ n → n + 1 ≤ m →
+    v.lim ≤ pj.tape.size → (View.nextElementBytes pj v m).safe = true := by
+  intro n
+  induction n with
+  | zero =>
+    intro v m hn hm hsz
+    obtain ⟨k, rfl⟩ : ∃ k, m = k + 1 := ⟨m - 1, by omega⟩
+    have h : v.off ≥ v.lim := by omega
+    rw [View.nextElementBytes]
+    simp [h, Res.safe]
+  | succ n ih =>
+    intro v m hn hm hsz
+    obtain ⟨k, rfl⟩ : ∃ k, m = k + 1 := ⟨m - 1, by omega⟩
+    rw [View.nextElementBytes]
+    by_cases h : v.off ≥ v.lim
+    · simp [h, Res.safe]
+    · have hr : pj.tape[v.off]? = some (pj.tape[v.off]'(by omega)) := by simp
+      simp only [h, if_false, rd, hr, Res.bind_ok]
+      generalize pj.tape[v.off]'(by omega) = w
+      by_cases t1 : tagOf w = tagString
+      · simp only [t1, beq_self_eq_true, if_true]
+        by_cases hs : v.off + 2 ≥ v.lim
+        · simp [hs, Res.safe]
+        · have hr1 : pj.tape[v.off + 1]? = some (pj.tape[v.off + 1]'(by omega)) := by simp
+          have hr2 : pj.tape[v.off + 2]? = some (pj.tape[v.off + 2]'(by omega)) := by simp
+          simp only [hs, if_false, hr1, hr2, Res.bind_ok]
+          rcases stringByteAt_cases pj (payloadOf w) (pj.tape[v.off + 1]'(by omega)) with ⟨nm, hnm⟩ | hnm
+          · rw [hnm]
+            simp only [Res.bind_ok]
+            split
+            · rfl
+            · split <;> rfl
+          · rw [hnm]; rfl
+      · have b1 : (tagOf w == tagString) = false := by simp [t1]
+        simp only [b1, Bool.false_eq_true, if_false]
+        by_cases t2 : tagOf w = tagObjectEnd
+        · simp [t2, Res.safe]
+        · have b2 : (tagOf w == tagObjectEnd) = false := by simp [t2]
+          simp only [b2, Bool.false_eq_true, if_false]
+          by_cases t3 : tagOf w = tagNop
+          · simp only [t3, beq_self_eq_true, if_true]
+            by_cases h0 : (payloadOf w).toNat = 0
+            · simp [h0, Res.safe]
+            · simp only [h0, if_false]
+              exact ih _ k (by simp only; omega) (by omega) hsz
+          · have b3 : (tagOf w == tagNop) = false := by simp [t3]
+            simp [b3, Res.safe]
+
 /-- the relation read backwards: the returned `error` and a panic determine the class of the model's result.
     (`(nil, TypeNone, nil)` alone does not tell "no more elements" from an element with an empty name whose tag has no
     `Type` — neither in Go, where callers test `t == TypeNone`, nor here, where `nil` and `[]byte{}` are both `#[]`.) -/
@@ -368,9 +459,29 @@ theorem go_object_source_tie (pj : PJ) (hb : BufOK pj) (n : Int) (off len : UInt
     SimBool pj.tape i (runFun goFuns goIter_Bool fuel ⟨envOf "i" i ++ rest, pj.tape⟩) i.bool ∧
     SimNE pj d0 (runFun goFuns goObject_NextElementBytes fuel ⟨neEnv v d0 pj, pj.tape⟩)
       (View.nextElementBytes pj v fuel) ∧
-    View.nextElementBytes pj v fuel ≠ .diverge :=
+    (View.nextElementBytes pj v fuel).safe = true :=
   ⟨stringByteAt_sim pj n off len fuel hb, stringByteAt_safe pj off len,
    stringBytes_sim pj i hi hb fuel (by omega), bool_sim i rest pj.tape fuel,
-   nextElementBytes_sim pj hb v d0 hv fuel fuel hf hf, nextElementBytes_no_diverge pj hb v hv fuel hf⟩
+   nextElementBytes_sim pj hb v d0 hv fuel fuel hf hf,
+   nextElementBytes_safe pj _ v fuel (Nat.le_refl _) hf hv⟩
+
+/-! ## a run (the hypotheses are satisfiable; the recursion is exercised) -/
+
+/-- `{<nop>"a":null}` without its opening word: a NOP word, the name (2 words), the value, the closing word -/
+def exPJ : PJ :=
+  { tape := #[mkWord 78 1, mkWord 34 0, 1, mkWord 110 0, mkWord 125 0], strings := #[], msg := #[97] }
+
+theorem ex_model : View.nextElementBytes exPJ ⟨5, 0⟩ 6 =
+    .ok (⟨5, 4⟩, some (#[97], { lim := 4, off := 4, addNext := 0, cur := 0, t := 110 }, tagToType 110)) := rfl
+
+/-- the translated `NextElementBytes` on that document, whatever `*dst` held: skips the NOP word through the recursive
+    call and returns `("a", TagToType['n'], nil)` with `o.off = 4` and `*dst` restricted to the value word -/
+example (d0 : Iter) : ∃ s, runFun goFuns goObject_NextElementBytes 6 ⟨neEnv ⟨5, 0⟩ d0 exPJ, exPJ.tape⟩ =
+      .ret s [.bytes #[97], .u8 (tagToType 110), .bool false] ∧
+    NEInit exPJ ⟨5, 4⟩ { lim := 4, off := 4, addNext := 0, cur := 0, t := 110 } s := by
+  have hb : BufOK exPJ := by constructor <;> simp [exPJ]
+  have h := nextElementBytes_sim exPJ hb ⟨5, 0⟩ d0 (by decide) 6 6 (by decide) (by decide)
+  rw [ex_model] at h
+  exact h
 
 end SJ.GoObject
